@@ -100,16 +100,21 @@ def r_header(ctx):
         return ("csvfield", "r%dc%d" % (r, c))
     shape = [2, 3, 1]        # ragged rows
 
-    def mkrecords(fail_at=None):
+    # csv 1.x: Position::line() of a record is the reader's line counter when the read of the record starts, and the counter advances
+    # on `\n` only — the `\n` of a CRLF terminator is consumed by the *next* read (measured on the csv 1.4.0 of Cargo.lock:
+    # LF records start on lines 1,2,3; CRLF records on 1,1,2; bare-CR records on 1,1,1); Position::record() is the record index
+    LINES = {"LF": [1, 2, 3], "CRLF": [1, 1, 2], "CR": [1, 1, 1]}
+
+    def mkrecords(fail_at=None, term="LF"):
         recs = []
         for r, n in enumerate(shape):
             if fail_at == r:
                 recs.append(("Err", ("csv-error", r)))
             else:
-                recs.append(("Ok", ("enum", "StringRecord", {"row": r, "fields": [fld(r, c) for c in range(n)]})))
+                recs.append(("Ok", ("enum", "StringRecord", {"row": r, "fields": [fld(r, c) for c in range(n)], "line": LINES[term][r]})))
         return recs
 
-    def run(hh, fail_at=None):
+    def run(hh, fail_at=None, term="LF"):
         def on_call(kind, nm, node, args, recv):
             if kind == "fn" and nm and nm.endswith("ReaderBuilder::new"):
                 return ("enum", "ReaderBuilder", {})
@@ -119,14 +124,20 @@ def r_header(ctx):
                 return recv
             if kind == "method" and isinstance(recv, tuple) and len(recv) == 3 and recv[1] == "Reader":
                 if nm in ("records", "into_records"):
-                    return absint.PyIter(mkrecords(fail_at))
+                    return absint.PyIter(mkrecords(fail_at, term))
                 raise Unknown("csv::Reader::%s is not modelled" % nm)
             if kind == "method" and isinstance(recv, tuple) and len(recv) == 3 and recv[1] == "StringRecord":
                 if nm in ("iter", "into_iter"):
                     return MutList(recv[2]["fields"])
                 if nm == "len":
                     return len(recv[2]["fields"])
+                if nm == "position":
+                    return ("Some", ("enum", "csv::Position", {"line": recv[2]["line"], "record": recv[2]["row"]}))
                 raise Unknown("StringRecord::%s is not modelled" % nm)
+            if kind == "method" and isinstance(recv, tuple) and len(recv) == 3 and recv[1] == "csv::Position":
+                if nm in ("line", "record"):
+                    return recv[2][nm]
+                raise Unknown("csv::Position::%s is not modelled" % nm)
             if kind == "method" and isinstance(recv, tuple) and recv[:1] == ("csvfield",):
                 if nm in ("to_string", "to_owned", "into"):
                     return ("str-of", recv)
@@ -154,9 +165,11 @@ def r_header(ctx):
         if isinstance(v, tuple) and v[:1] == ("coerced",):
             return ("coerced", v[1])
         return ("other", repr(v)[:60])
-    for label, hh in (("None", ("None",)), ("Some(false)", ("Some", False)), ("Some(true)", ("Some", True))):
+    for label, hh, term in [(l, h, t) for t in ("LF", "CRLF", "CR") for l, h in (("None", ("None",)), ("Some(false)", ("Some", False)), ("Some(true)", ("Some", True)))]:
+        if term != "LF":
+            label = "%s,%s records" % (label, term)
         try:
-            v = run(hh)
+            v = run(hh, term=term)
         except Unknown as e:
             ctx.incomplete_msg(rid, "has_header=%s: %s" % (label, e))
             continue
